@@ -195,6 +195,9 @@ impl PropImpl for C05 {
          (E) all histories of <= 3 structural operations (9 ops: add, insert 0..3, remove 0..3), each add/insert followed by set X=1, on 10 start layouts. Non-trivial: an in-range insert/remove on a \
          document with >= 2 paragraphs or with leading/trailing trivia.".into()
     }
+    fn expected_labels(&self) -> Vec<&'static str> {
+        vec!["op:add", "op:insert-in-range", "op:insert-at-end", "op:insert-beyond-end", "op:remove-in-range", "op:remove-beyond-end", "op:set", "start:empty", "start:built", "start:parsed", "start:leading-trivia", "start:trailing-trivia", "start:no-final-newline"]
+    }
     fn budget(&self, tier: Tier) -> Budget {
         Budget { cases_per_lane: if tier == Tier::Quick { 10000 } else { 40_000 }, tape_max: 800, cpu_s: 10 }
     }
